@@ -122,6 +122,10 @@ func (st *State) clone() *State {
 // ------------------------------------------------------------------ engine
 
 type Engine struct {
+	sfUsed    map[*SpecFunc]bool
+	curAxiom  *pendingAxiom
+	pendingAx []*pendingAxiom
+	axSlot    int
 	prog     *ssa.Program
 	pkgs     []*packages.Package
 	spkgs    map[string]*ssa.Package
